@@ -76,7 +76,7 @@ CHECKS = {
   "DESIGN.md section 4 C06"),
  "C07": ("model_checking",
   "corpus encodings parsed by an independent decoder written from the documentation; grammar-generated streams decoded by the implementation",
-  "Direction 1: every encoding of the BFS corpus is parsed by refwire (written only from the comments of flag.go/encoding.go) and must yield the same content; the plain decoder must accept exact-variant encodings. Direction 2: every well-formed stream of the documented grammar within stated bounds (~1e5 streams quick, incl. indexes at both ends of the int32 range) is decoded by the implementation into five store kinds and compared with the documented meaning.",
+  "Direction 1: every encoding of the BFS corpus is parsed by refwire (written only from the comments of flag.go/encoding.go) and must yield the same content; the plain decoder must accept exact-variant encodings. Direction 2: every well-formed stream of the documented grammar within stated bounds (~1e5 streams quick, incl. indexes at both ends of the int32 range for the sparse store, which needs neither an array nor a page table to hold them) is decoded by the implementation into five store kinds and compared with the documented meaning.",
   "Trusted: refwire as a faithful reading of the documentation. Not covered: streams beyond the grammar bounds (more than 2 store blocks, more than 3 bins per block).",
   "DESIGN.md section 4 C07"),
  "C08": ("fault_enumeration",
@@ -91,8 +91,8 @@ CHECKS = {
   "DESIGN.md section 4 C09"),
  "C17": ("exploration",
   "exhaustive enumeration of conversions (mapping pairs x scales incl. bin-aligned x stores x variants x single-bin and small sources)",
-  "All ordered pairs of mappings of the grid (plus integer offset shifts of the same base, which align bins exactly) x 11 scales x store kind pairs x both variants x every single-bin source of a window, small multi-bin sources and single values at 1e-100..1e100, sparse sources under every explored map order; each conversion is judged on source purity, carried mapping, zero weight, weight conservation, absence of negative bins, overlap, the composed accuracy bound on quantiles, identity = copy, and rescaled exact statistics.",
-  "Trusted: the composed bound (1-a2)/(1+a1) <= y/(s x) <= (1+a2)/(1-a1). Not covered: sources outside [2e-3, 5e2] or scales outside [1e-3, 1e3].",
+  "All ordered pairs of mappings of the grid (plus integer offset shifts of the same base, which align bins exactly) x 11 scales x store kind pairs x both variants x every single-bin source of a window, small multi-bin sources, single values at 1e-100..1e100 and weights of 1e300 / 1e-300, sparse sources under every explored map order; each conversion is judged on source purity, carried mapping, zero weight, weight conservation, absence of negative bins, overlap, the composed accuracy bound on quantiles, identity = copy, and rescaled exact statistics.",
+  "Trusted: the composed bound (1-a2)/(1+a1) <= y/(s x) <= (1+a2)/(1-a1). Not covered: magnitudes beyond 1e-100..1e100, multi-bin sources outside [2e-3, 5e2], scales outside [1e-3, 1e3].",
   "DESIGN.md section 4 C17"),
  "C18": ("exploration",
   "exhaustive enumeration of byte strings (all strings <= 3 bytes, boundary alphabets to length 8-12) and of structured values through the codecs",
